@@ -195,31 +195,11 @@ func init() {
 		},
 		// vsUFBytes(name, outLen, args ...[]byte) []byte : one UF per output over the concatenated (fixed-length) inputs
 		"vsUFBytes": func(ex *Exec, st *State, fn *ssa.Function, args []Value, site ssa.Instruction) Value {
-			name := ex.argString(st, args[0])
-			n := ex.argInt(args[1])
-			var in *Term
-			for _, a := range ex.elems(st, args[2].(*SliceV)) {
-				s := a.(*SliceV)
-				if !s.Len.IsConst() {
-					panic(unsupported("vsUFBytes: symbolic-length argument"))
-				}
-				for _, b := range ex.byteTerms(st, s) {
-					if in == nil {
-						in = b
-					} else {
-						in = Concat(in, b)
-					}
-				}
-			}
-			if in == nil {
-				in = BV(8, 0)
-			}
-			out := UF(fmt.Sprintf("%s/%d", name, in.W), 8*n, in)
-			es := make([]Value, n)
-			for i := 0; i < n; i++ {
-				es[i] = Extract(8*(n-i)-1, 8*(n-i-1), out)
-			}
-			return ex.mkSliceFromElems(st, es)
+			return ex.ufBytes(st, args, false)
+		},
+		// vsUFBytesInj: the same, assumed injective on the arguments that occur in the run (collision freeness, A1)
+		"vsUFBytesInj": func(ex *Exec, st *State, fn *ssa.Function, args []Value, site ssa.Instruction) Value {
+			return ex.ufBytes(st, args, true)
 		},
 		"vsRunUntilBlocked": func(ex *Exec, st *State, fn *ssa.Function, args []Value, site ssa.Instruction) Value {
 			return ex.runUntilBlocked(st, args[0], site)
@@ -282,6 +262,16 @@ func init() {
 	intrinsics["(*sync.RWMutex).RUnlock"] = func(ex *Exec, st *State, fn *ssa.Function, args []Value, site ssa.Instruction) Value {
 		ex.lockOp(st, args[0], site, "RUnlock")
 		return nil
+	}
+	intrinsics["(*sync.Pool).Put"] = nop
+	intrinsics["(*sync.Pool).Get"] = func(ex *Exec, st *State, fn *ssa.Function, args []Value, site ssa.Instruction) Value {
+		// Pool{noCopy; local; localSize; victim; victimSize; New func() any}: always allocate through New
+		pv := ex.load(st, args[0]).(*Agg)
+		newf := pv.E[len(pv.E)-1]
+		if isNilFunc(newf) {
+			return &IfaceC{}
+		}
+		return ex.invokeFuncValue(st, newf, nil, site)
 	}
 	intrinsics["(*sync.WaitGroup).Add"] = nop
 	intrinsics["(*sync.WaitGroup).Done"] = nop
@@ -353,6 +343,7 @@ func init() {
 	}
 
 	// ------------------------------------------------------------ runtime and assembly leaves
+	intrinsics["runtime/debug.FreeOSMemory"] = nop
 	intrinsics["runtime.KeepAlive"] = nop
 	intrinsics["runtime.SetFinalizer"] = nop
 	intrinsics["runtime.Gosched"] = nop
@@ -721,4 +712,54 @@ func (ex *Exec) bytesValue(st *State, b []byte) *SliceV {
 func isNilFunc(v Value) bool {
 	f, ok := v.(*FuncC)
 	return ok && f.Fn == nil && f.Builtin == nil
+}
+
+type ufApp struct{ in, out *Term }
+
+func (ex *Exec) ufBytes(st *State, args []Value, injective bool) Value {
+	name := ex.argString(st, args[0])
+	n := ex.argInt(args[1])
+	var in *Term
+	for _, a := range ex.elems(st, args[2].(*SliceV)) {
+		s := a.(*SliceV)
+		add := func(b *Term) {
+			if in == nil {
+				in = b
+			} else {
+				in = Concat(in, b)
+			}
+		}
+		if !s.Len.IsConst() {
+			// symbolic length: bytes beyond the length are masked to zero and the length itself is an argument
+			for i, b := range ex.byteTerms(st, s) {
+				add(Ite(Ult(i64(int64(i)), s.Len), b, BV(8, 0)))
+			}
+			add(Extract(15, 0, s.Len))
+			continue
+		}
+		for _, b := range ex.byteTerms(st, s) {
+			add(b)
+		}
+	}
+	if in == nil {
+		in = BV(8, 0)
+	}
+	full := fmt.Sprintf("%s/%d", name, in.W)
+	out := UF(full, 8*n, in)
+	if injective {
+		if ex.ufApps == nil {
+			ex.ufApps = map[string][]ufApp{}
+		}
+		for _, p := range ex.ufApps[full] {
+			if p.in != in {
+				st.assume(Or(Eq(p.in, in), Not(Eq(p.out, out))))
+			}
+		}
+		ex.ufApps[full] = append(ex.ufApps[full], ufApp{in, out})
+	}
+	es := make([]Value, n)
+	for i := 0; i < n; i++ {
+		es[i] = Extract(8*(n-i)-1, 8*(n-i-1), out)
+	}
+	return ex.mkSliceFromElems(st, es)
 }
